@@ -12,6 +12,7 @@ import (
 	"path/filepath"
 	"sort"
 	"strings"
+	"sync"
 
 	"verif/harness/engines"
 )
@@ -100,7 +101,12 @@ type stats struct {
 	Classes      map[string]int `json:"classes"`
 	Samples      []string       `json:"samples"`
 	OpsPerCaseMx int            `json:"max_ops_per_case"`
+	ConcCases    int            `json:"conc_cases,omitempty"`
+	ConcDiffs    int            `json:"conc_diffs,omitempty"`
 }
+
+// seqAnswers, when non-nil, receives the answers of the sequential pass, case by case.
+var seqAnswers *[][]string
 
 func execAll(e engines.Engine, cases [][]string, opsW, ansW *bufio.Writer, st *stats) {
 	seen := map[string]bool{}
@@ -113,8 +119,14 @@ func execAll(e engines.Engine, cases [][]string, opsW, ansW *bufio.Writer, st *s
 		if len(c) > st.OpsPerCaseMx {
 			st.OpsPerCaseMx = len(c)
 		}
+		if seqAnswers != nil {
+			*seqAnswers = append(*seqAnswers, make([]string, 0, len(c)))
+		}
 		for _, op := range c {
 			ans := engines.SafeExec(e, op)
+			if seqAnswers != nil {
+				(*seqAnswers)[ci] = append((*seqAnswers)[ci], ans)
+			}
 			fmt.Fprintln(opsW, op)
 			fmt.Fprintln(ansW, ans)
 			st.Ops++
@@ -171,15 +183,67 @@ func run(e engines.Engine, seed uint64, tier, out, corpus string) {
 		die("%v", err)
 	}
 	ow, aw := bufio.NewWriterSize(of, 1<<20), bufio.NewWriterSize(af, 1<<20)
+	cs, concSafe := e.(engines.ConcSafe)
+	var seq [][]string
+	if concSafe {
+		seqAnswers = &seq
+	}
 	execAll(e, cases, ow, aw, st)
+	seqAnswers = nil
 	ow.Flush()
 	aw.Flush()
 	of.Close()
 	af.Close()
+	if concSafe {
+		diffs := concPass(e.Name(), cs.ConcWorkers(), cases, seq)
+		st.ConcCases = len(cases)
+		st.ConcDiffs = len(diffs)
+		if err := os.WriteFile(filepath.Join(out, "conc.txt"), []byte(strings.Join(diffs, "")), 0o644); err != nil {
+			die("%v", err)
+		}
+	}
 	b, _ := json.MarshalIndent(st, "", " ")
 	if err := os.WriteFile(filepath.Join(out, "stats.json"), b, 0o644); err != nil {
 		die("%v", err)
 	}
+}
+
+// concPass executes every case again, spread over `workers` goroutines with one engine value each,
+// and returns one line per answer that differs from the sequential pass:
+// case index, op index, op, sequential answer, concurrent answer (tab separated).
+func concPass(name string, workers int, cases [][]string, seq [][]string) []string {
+	if workers < 2 {
+		workers = 2
+	}
+	var mu sync.Mutex
+	var diffs []string
+	var wg sync.WaitGroup
+	for w := 0; w < workers; w++ {
+		wg.Add(1)
+		go func(w int) {
+			defer wg.Done()
+			e, ok := engines.Get(name)
+			if !ok {
+				return
+			}
+			for ci := w; ci < len(cases); ci += workers {
+				e.Reset()
+				for oi, op := range cases[ci] {
+					ans := engines.SafeExec(e, op)
+					if ans != seq[ci][oi] {
+						mu.Lock()
+						if len(diffs) < 200 {
+							diffs = append(diffs, fmt.Sprintf("%d\t%d\t%s\t%s\t%s\n", ci, oi, op, engines.Canon(seq[ci][oi]), engines.Canon(ans)))
+						}
+						mu.Unlock()
+					}
+				}
+			}
+		}(w)
+	}
+	wg.Wait()
+	sort.Strings(diffs)
+	return diffs
 }
 
 func replay(e engines.Engine, in, out string) {
